@@ -58,7 +58,7 @@ TraceNext ==
                /\ \E dec \in {"good", "bad", "bad2", "nil", "same", "zero", "none"} :
                      Request(i, T.items[i][Len(hist[i]) + 1], dec)
             \/ /\ Len(bshist[i]) < Len(T.bs[i])
-               /\ BsOffer(i, T.bs[i][Len(bshist[i]) + 1])
+               /\ \E acc \in BOOLEAN : BsOffer(i, T.bs[i][Len(bshist[i]) + 1], acc)
             \/ BsStore(i)
 
 TraceSpec == TraceInit /\ [][TraceNext]_<<vars, tr>>
